@@ -236,5 +236,24 @@ def hardening_oracle(chk, rng, tier: str):  # noqa: C901, PLR0912, PLR0915
                 if not same(got2, want2, 1e-9):
                     fail("EnergyDependentWidth on compound arguments differs from the width at the compound values", L=lv, cse=cse, values=v, value=got2, expected=want2)
     info["generated_code_evaluations"] = n_code
-    info["symbolic_L_vs_integer_L_outside_z_gt_0"] = {"disagreements_recorded_not_judged": len(below), "first": below[:2]}
+    info["symbolic_L_vs_integer_L_at_z_le_0"] = {"disagreements": len(below), "first": below[:2]}
+    # documented closed forms (Chung / von Hippel-Quigg, as in the class docstring / TR-029) for L <= 4, ANY real z:
+    # the integer-L polynomial path must be this function everywhere (a deviation is never the known finding)
+    zz = sp.Symbol("zz", real=True)
+    documented = {0: sp.Integer(1), 1: 2 * zz / (zz + 1), 2: 13 * zz**2 / ((zz - 3) ** 2 + 9 * zz),
+                  3: 277 * zz**3 / (zz * (zz - 15) ** 2 + 9 * (2 * zz - 5) ** 2),
+                  4: 12746 * zz**4 / ((zz**2 - 45 * zz + 105) ** 2 + 25 * zz * (2 * zz - 21) ** 2)}
+    for lv, formula in documented.items():
+        for zv in (R(-7, 2), R(-3, 2), R(-1, 100), 0, R(1, 100), 1, R(5, 2), 40, -2.5, 3.25):
+            chk.count(("documented-BL", lv, str(zv)))
+            got = numeric(ffm.BlattWeisskopfSquared(zv, lv))
+            want = numeric(formula.xreplace({zz: sp.sympify(zv)}))
+            if not same(got, want, 1e-12):
+                fail("integer-L (polynomial) path of BlattWeisskopfSquared differs from the documented B_L² formula", L=lv, z=zv, value=got, documented=want)
+    # the known finding: ONLY a disagreement between the symbolic-L (Hankel) spelling and the integer-L spelling at
+    # z <= 0 (all other spellings of that call agreeing) is classified; it is reported last
+    if below:
+        b0 = below[0]
+        bad.append({"what": "symbolic-L (Hankel) path of BlattWeisskopfSquared differs from the integer-L (polynomial) path for z <= 0",
+                    "class": "symbolic-L Hankel path vs integer-L polynomial path, z <= 0", "cases": len(below), "first": b0, "examples": below[1:4]})
     return bad, info
